@@ -45,17 +45,36 @@ func utf16be(s string) []byte {
 func FontName(c byte) string { return "Roboto-Regula" + string(c) }
 
 // Variant returns Roboto with its PostScript/full names rewritten to Roboto-Regula<c> (same length,
-// so no table has to move). rev perturbs one more name string so that two variants with the same
-// name have different installed representations ("old" vs "new").
+// so no table has to move). rev != 0 perturbs one control value, so that two variants with the same
+// name carry different font programs ("old" vs "new" revision).
 func Variant(c byte, rev byte) []byte {
 	b := append([]byte(nil), Roboto()...)
 	oldN, newN := "Roboto-Regular", FontName(c)
 	b = bytes.ReplaceAll(b, []byte(oldN), []byte(newN))
 	b = bytes.ReplaceAll(b, utf16be(oldN), utf16be(newN))
 	if rev != 0 {
-		// "Roboto Regular" (full name with a blank) -> "Roboto Regula<rev>"
-		b = bytes.ReplaceAll(b, []byte("Roboto Regular"), []byte("Roboto Regula"+string(rev)))
-		b = bytes.ReplaceAll(b, utf16be("Roboto Regular"), utf16be("Roboto Regula"+string(rev)))
+		// another revision of the same font: one control value of the 'cvt ' table (hinting data, plain
+		// numbers) is changed, so the font program that gets installed and embedded differs
+		n := int(binary.BigEndian.Uint16(b[4:6]))
+		done := false
+		for i := 0; i < n; i++ {
+			e := b[12+16*i : 28+16*i]
+			if string(e[:4]) == "cvt " {
+				off := int(binary.BigEndian.Uint32(e[8:12]))
+				b[off+1] ^= rev
+				// keep the table checksum right (big-endian sum of uint32 words)
+				ln := int(binary.BigEndian.Uint32(e[12:16]))
+				var sum uint32
+				for j := 0; j < (ln+3)/4*4; j += 4 {
+					sum += binary.BigEndian.Uint32(b[off+j : off+j+4])
+				}
+				binary.BigEndian.PutUint32(e[4:8], sum)
+				done = true
+			}
+		}
+		if !done {
+			panic("gen.Variant: font has no cvt table")
+		}
 	}
 	return b
 }
